@@ -339,3 +339,188 @@ def guarded_call(fn, *args):
         if worker.ALARM["fired"]:
             raise worker.CaseTimeout()
         return None, exc
+
+
+# ----------------------------------------------------------------------------------
+# well-formed results (C06)
+# ----------------------------------------------------------------------------------
+
+KIND_NOT = {"E": "W", "W": "E", "S": "S", "C": "D", "D": "CD"}
+
+
+def allowed_kinds(op, ka, kb=None):
+    """kinds the documentation's tables allow for the result"""
+    if op in ("inv", "neg"):
+        return KIND_NOT[ka]
+    if op in ("or", "add"):
+        if ka == "W" or kb == "W":
+            return "W"
+        if ka == "E":
+            return kb
+        if kb == "E":
+            return ka
+        return "WSCD"
+    if op in ("and", "mul"):
+        if ka == "E" or kb == "E":
+            return "E"
+        if ka == "W":
+            return kb
+        if kb == "W":
+            return ka
+        return "ESCD"
+    if op == "sub":
+        if ka == "E" or kb == "W":
+            return "E"
+        if kb == "E":
+            return ka
+        if ka == "W":
+            return KIND_NOT[kb]
+        return "ESCD"
+    if op == "xor":
+        if ka == "E":
+            return kb
+        if kb == "E":
+            return ka
+        if ka == "W":
+            return KIND_NOT[kb]
+        if kb == "W":
+            return KIND_NOT[ka]
+        return "EWSCD"
+    raise ValueError(op)
+
+
+def _curve_wellformed(curve, what):
+    out = []
+    out += [(what + ": " + m, d) for m, d in zero_length_violations(curve)]
+    if O.is_polygonal(curve):
+        if len(curve) < 3:
+            out.append(("%s has only %d segments" % (what, len(curve)), {}))
+        hit = polyline_self_crossing(curve)
+        if hit:
+            out.append(("%s crosses itself (segments %d and %d)" % (what, hit[0], hit[1]), {}))
+    else:
+        hit = flat_self_crossing(curve)
+        if hit:
+            out.append(("%s crosses itself (flattened pieces %d and %d)" % (what, hit[0], hit[1]), {}))
+    if O.signed_area(curve) == 0:
+        out.append(("%s encloses no area" % what, {}))
+    return out
+
+
+def judge_wellformed(shape):
+    """C06 (1)-(4) on a library shape; returns list of (message, details)"""
+    import shapepy
+    from shapepy import shape as shp
+
+    out = []
+    if isinstance(shape, shp.SingletonShape):
+        return out
+    if not isinstance(shape, shp.DefinedShape):
+        return [("result is a %s, not a shape" % type(shape).__name__, {})]
+    out += closed_chain_violations(shape)
+    if out:
+        return out
+    region = S.snap_shape(shape)
+
+    def simple(reg, what):
+        res = []
+        if reg[0] != "simple":
+            res.append(("%s is a %s where a simple shape is required" % (what, reg[0]), {}))
+            return res
+        res += _curve_wellformed(reg[1], what)
+        return res
+
+    def connected(reg, what):
+        res = []
+        subs = reg[1]
+        if len(subs) < 2:
+            res.append(("%s has %d subshapes (a connected shape needs an outer-or-unbounded region and holes: >= 2 boundaries)" % (what, len(subs)), {}))
+            return res
+        for i, sub in enumerate(subs):
+            res += simple(sub, "%s boundary %d" % (what, i))
+        if res:
+            return res
+        curves = [sub[1] for sub in subs]
+        orients = [O.orientation(c) for c in curves]
+        outer = [c for c, o in zip(curves, orients) if o > 0]
+        holes = [c for c, o in zip(curves, orients) if o < 0]
+        if len(outer) > 1:
+            res.append(("%s has %d counter-clockwise boundaries (at most one outer region)" % (what, len(outer)), {}))
+            return res
+        for i, h in enumerate(holes):
+            q = interior_point(h)
+            if q is None:
+                continue
+            if outer:
+                try:
+                    if O.winding(outer[0], q, 0) != 1:
+                        res.append(("%s: hole %d lies outside the outer boundary" % (what, i), {}))
+                except O.TooClose:
+                    pass
+            for j, h2 in enumerate(holes):
+                if j == i:
+                    continue
+                try:
+                    if O.winding(h2, q, 0) != 0:
+                        res.append(("%s: hole %d lies inside hole %d" % (what, i, j), {}))
+                except O.TooClose:
+                    pass
+        return res
+
+    kind = region[0]
+    if kind == "simple":
+        out += simple(region, "the boundary")
+    elif kind == "connected":
+        out += connected(region, "the connected shape")
+    elif kind == "disjoint":
+        subs = region[1]
+        if len(subs) < 2:
+            out.append(("disjoint shape with %d component" % len(subs), {}))
+        for i, sub in enumerate(subs):
+            if sub[0] == "simple":
+                out += simple(sub, "component %d" % i)
+            elif sub[0] == "connected":
+                out += connected(sub, "component %d" % i)
+            else:
+                out.append(("component %d is a %s" % (i, sub[0]), {}))
+        if not out:
+            # pairwise disjoint interiors: an interior point of a component is in no other one
+            for i, sub in enumerate(subs):
+                q = component_interior_point(sub)
+                if q is None:
+                    continue
+                for j, other in enumerate(subs):
+                    if i == j:
+                        continue
+                    try:
+                        if O.region_contains(other, q, 0):
+                            out.append(("components %d and %d of the disjoint shape overlap (point %s is inside both)" % (
+                                i, j, S.fmt_point((float(q[0]), float(q[1])))), {}))
+                    except O.TooClose:
+                        pass
+    return out
+
+
+def component_interior_point(region):
+    """a point inside the region denoted by a simple/connected snapshot"""
+    curves = O.region_curves(region)
+    box = O.curves_bbox(curves)
+    diam = O.diameter(box)
+    for c in curves:
+        orient = O.orientation(c)
+        for seg in c:
+            for t in (Fr(1, 2), Fr(1, 4)):
+                p = O.evaluate(seg, t)
+                d = O.evaluate(O.derivative_ctrl(seg, 1), t)
+                norm = math.hypot(float(d[0]), float(d[1]))
+                if norm == 0:
+                    continue
+                for dist in (1e-4, 1e-6, 1e-2):
+                    k = Fr(dist * diam / norm)
+                    q = (p[0] - d[1] * k, p[1] + d[0] * k)  # left of the direction of travel = inside
+                    try:
+                        if O.region_contains(region, q, Fr(dist * diam / 100)):
+                            return q
+                    except O.TooClose:
+                        continue
+    return None
